@@ -383,5 +383,9 @@ def run(ctx):
     # every allowed alternative type round-trips at its boundary values: the numeric table (shared with C01.T1 / C02.T2)
     from . import _items, c01
 
+    # text items are 8-bit transparent: the single-byte codecs of A and J items (C01.T2)
+    from .. import report
+
+    report.share(ctx, "C03.T3", c01.check_text)
     n = _items.check_numeric_table(ctx, "C03.T3", c01.NUMERIC, c01.VAR_ATTRS)
     ctx.floor("numeric classes", n, 10)
